@@ -135,6 +135,22 @@ CLAIMED = {
         technique='Coq proof (registry invariant, mutual inductive key relation with functional determinism) + differential '
                   'histories via vm_compute',
         ref='DESIGN.md section 5, C13'),
+    'C14': dict(
+        category='proof',
+        text='Theorems about the file-cache model (files as their loader sees them: an intact entry recording its key, or '
+             'something that does not load): an intact entry for exactly this key is returned with zero computer calls; a '
+             'missing or damaged file makes the computer run exactly once, its result stored and returned; force always '
+             'recomputes and replaces; a raising computer stores nothing; get never computes and never returns a damaged '
+             'file; an entry recorded for another key is reported; every other file is untouched; distinct keys (no-collision '
+             'hypothesis on the two keys) and a cache vs any of its sub-caches (whatever the name) use distinct files. Tied to '
+             'JsonCache by differential operation sequences with sub-caches, unicode keys, falsy/None values, failing '
+             'computers and files truncated at arbitrary byte lengths, emptied, corrupted, re-shaped or planted for another key.',
+        note='orjson and "no proper prefix of an entry parses" trusted (exercised by truncation); hash shape (64 hex chars) and '
+             'no-collision are explicit hypotheses; NumpyArrayCache/DataFrameCache share FileCache logic without key check '
+             '(ca_checks_key=false in the model) but are not yet driven by the correspondence',
+        technique='Coq proof (case analysis of the cache step, path injectivity by length/slash counting) + differential '
+                  'correspondence via vm_compute',
+        ref='DESIGN.md section 5, C14'),
     'C16': dict(
         category='proof',
         text='Theorems for every signature, positional prefix and keyword order: the decorator\'s normalisation binds '
